@@ -187,13 +187,14 @@ func main() {
 	run := runProperty(l, *prop, *tier, timeout, filepath.Join(*work, *prop), *verbose)
 	run.Seed = seed
 	run.Wall = time.Since(t0).Seconds()
+	code := run.report()
 	if *evidence != "" {
 		if err := writeEvidence(run, *evidence); err != nil {
 			fmt.Fprintln(os.Stderr, "govc: evidence:", err)
 			os.Exit(2)
 		}
 	}
-	os.Exit(run.report())
+	os.Exit(code)
 }
 
 func printResult(r *FuncResult, verbose bool) {
@@ -228,6 +229,8 @@ type PropRun struct {
 	WorkDir  string
 	Known    []knownHit
 	Failures []*Obligation
+	Repo     string
+	KnownHits []string
 }
 
 type knownHit struct {
@@ -248,7 +251,7 @@ func (p *PropRun) all() []*Obligation {
 }
 
 func runProperty(l *loaded, prop, tier string, timeout int, work string, verbose bool) *PropRun {
-	run := &PropRun{Prop: prop, Tier: tier, Trusted: map[string]bool{}, WorkDir: work}
+	run := &PropRun{Prop: prop, Tier: tier, Trusted: map[string]bool{}, WorkDir: work, Repo: "/repo"}
 	os.RemoveAll(work)
 	os.MkdirAll(work, 0o755)
 	var keys []string
@@ -310,26 +313,60 @@ func (p *PropRun) report() int {
 		}
 	}
 	fmt.Printf("property %s tier=%s: %d obligations, %d discharged, %d functions under contract, %.1fs\n", p.Prop, p.Tier, len(all), nproved, len(p.Funcs), p.Wall)
-	for _, k := range p.Known {
-		fmt.Println(k.Line)
-	}
 	if len(all) == 0 {
 		fmt.Printf("VIOLATION property=%s replay=%s no-failing-input-found\n", p.Prop, p.writeReplay(&Obligation{Name: "vacuity/no-obligations", Src: "no obligation was generated for this property: the contracts no longer bind to the code"}))
 		return 1
 	}
-	if len(bad) == 0 {
-		return 0
-	}
+	ff := loadFindings()
+	exit := 0
+	reported := map[string]bool{}
 	for _, o := range bad {
+		// known finding?
+		var hit *Finding
+		for i := range ff.Findings {
+			f := &ff.Findings[i]
+			if f.appliesTo(p.Prop) && f.Obligation == baseOblName(o.Name) {
+				hit = f
+			}
+		}
+		if hit != nil {
+			if reported[hit.Obligation] {
+				continue
+			}
+			reported[hit.Obligation] = true
+			note := ""
+			if hit.Witness != "" {
+				failed, built, out := runOverlayTest(p.Repo, filepath.Join("/verif/findings", hit.Witness), hit.Run, 120*time.Second)
+				switch {
+				case !built:
+					note = " [witness could not be built: " + firstLine(out) + "]"
+				case failed:
+					note = " [witness replayed on the real code: still fails]"
+				default:
+					note = " [STALE: the recorded witness no longer fails on this tree]"
+				}
+			}
+			fmt.Printf("KNOWN-FINDING: property=%s %s: %s%s\n", p.Prop, hit.Obligation, hit.What, note)
+			p.KnownHits = append(p.KnownHits, hit.Obligation)
+			continue
+		}
 		path := p.writeReplay(o)
 		suffix := " no-failing-input-found"
-		if o.Status == "failed" && o.replayConfirmed {
+		if o.replayConfirmed {
 			suffix = ""
 		}
 		fmt.Printf("  %s %s (%s) %s\n", o.Status, o.Name, o.Pos, o.Src)
 		fmt.Printf("VIOLATION property=%s replay=%s%s\n", p.Prop, path, suffix)
+		exit = 1
 	}
-	return 1
+	return exit
+}
+
+func firstLine(s string) string {
+	if i := strings.Index(s, "\n"); i >= 0 {
+		return s[:i]
+	}
+	return s
 }
 
 func (p *PropRun) writeReplay(o *Obligation) string {
@@ -354,7 +391,21 @@ func truncate(s string, n int) string {
 }
 
 func writeEvidence(p *PropRun, path string) error {
-	all := p.all()
+	var all []*Obligation
+	var knownObls []string
+	for _, o := range p.all() {
+		isKnown := false
+		for _, k := range p.KnownHits {
+			if o.Status != "proved" && baseOblName(o.Name) == k {
+				isKnown = true
+			}
+		}
+		if isKnown {
+			knownObls = append(knownObls, o.Name)
+			continue
+		}
+		all = append(all, o)
+	}
 	nproved := 0
 	solverTime := 0.0
 	bySolver := map[string]int{}
@@ -410,6 +461,7 @@ func writeEvidence(p *PropRun, path string) error {
 			"samples":                  samples,
 			"obligation_list":          oblList,
 			"bounded_stand_ins":        p.Bounded,
+			"known_finding_obligations": knownObls,
 			"notes":                    p.Notes,
 		},
 		"assumptions": append([]string{
